@@ -93,6 +93,9 @@ def impl_call(case):
     if case.get('_placed'):
         from . import c06
         out['_facts'] = guarded(lambda: c06.facts({'band': case['band'], 'other': case['src']}))
+    elif not case.get('force'):
+        from . import c06       # only for recognising a tie on the threshold in compare()
+        out['_tie_facts'] = guarded(lambda: c06.facts({'band': case['band'], 'other': case['src']}))
     return out
 
 
@@ -113,6 +116,12 @@ def compare(case, o, m):
         m2 = {'ok': {k: v for k, v in m['ok'].items() if k != 'factor'}}
         if isinstance(m2['ok'].get('vals'), dict):
             return None         # the model cannot sample (division by zero in a composite): nothing to compare
+    if (o2.get('err') == 'PartialOverlap') != (m2.get('err') == 'PartialOverlap'):
+        # the excluded fraction sits on the 1 % threshold itself (exactly 1/100 in exact arithmetic, one rounding either
+        # way in binary64): which side of `<` it falls on is rounding, not the admission rule
+        fx = (o.get('_facts') or o.get('_tie_facts') or {}).get('ok')
+        if fx and fx.get('total') and abs(fx['excl_coarse'] / fx['total'] - 0.01) <= 1e-12:
+            return None
     scale = max([abs(v) for v in (o2.get('ok', {}).get('vals') or [0.0])] + [0.0])
     return same(o2, m2, rtol=1e-8, atol=1e-12 * scale)
 
